@@ -31,6 +31,7 @@ import GgrsModel.Properties.C04
 import GgrsModel.Proofs.Earliest
 import GgrsModel.Proofs.Session
 import GgrsModel.Proofs.World
+import GgrsModel.Proofs.DelayStep
 
 namespace Ggrs.SyncLayer
 
@@ -139,5 +140,40 @@ theorem C01_lockstep_replay {G : Type} (step : G → List (Input × InputStatus)
   have hc : b.2.cur = b.1.sync.currentFrame := by
     have := hl.sess.tinv.exec; simp only [execReqs, List.foldl_nil] at this; exact this
   exact ⟨gh, hl, hc, fun f hf => hl.timeline f (by rw [← hc]; exact hf), h.state⟩
+
+end Ggrs
+
+namespace Ggrs
+
+/-- `C01_timeline_partial` for runs that also contain `set_input_delay` calls of local players. -/
+theorem C01_timeline_delay (x y : P2P × TLState) (h0 : HInv x) (hrun : DStar x y)
+    (now : Nat) (s' : P2P) (reqs' : List Request) (hadv : y.1.advanceRollbackFrame now [] = .ok (s', reqs')) :
+    ∃ (gh gh1 gh2 : Ghost) (s1 : P2P) (reqs1 : List Request),
+      SessInv y.1 gh y.2 [] ∧ gh1.specs = gh.specs ∧ s1.sync.currentFrame = y.1.sync.currentFrame ∧
+      s1.sync.queues.length = y.1.sync.queues.length ∧
+      (∀ p, p < y.1.sync.queues.length → ∀ f : Nat, (f : Int) < y.1.sync.currentFrame →
+        f < (gh.specs p).vals.length →
+        ((((execReqs y.2 reqs1).R f).getD p default).1 = (gh.specs p).vals.getD f 0)) ∧
+      (reqs' = reqs1 ∨ ∃ (c : Nat) (ins : List (Input × InputStatus)), y.1.sync.currentFrame = (c : Int) ∧
+        reqs' = reqs1 ++ [.advance ins] ∧ InputsOk y.1.pred gh2 c ins) := by
+  obtain ⟨⟨gh, h, _⟩, _⟩ := HInv_run x y h0 hrun
+  obtain ⟨s1, reqs1, gh1, gh2, gh', hset, hright, _, _, _, hcase⟩ :=
+    advanceRollbackFrame_spec y.1 s' gh y.2 [] reqs' now h hadv
+  refine ⟨gh, gh1, gh2, s1, reqs1, h, hset.specs, hset.cur, hset.nq, ?_, ?_⟩
+  · intro p hp f hf hlen
+    have hp1 : p < s1.sync.queues.length := by rw [hset.nq]; exact hp
+    rw [← hset.inv.rows p hp1 f, ← hset.specs]
+    exact hright p hp1 f (by rw [hset.cur]; exact hf) (by rw [hset.specs]; exact hlen)
+  · rcases hcase with hr | ⟨c, ins, hc, hr, hok, _, _⟩
+    · exact Or.inl hr
+    · exact Or.inr ⟨c, ins, hc, hr, hok⟩
+
+/-- `C01_state_replay_partial` for runs that also contain `set_input_delay` calls. -/
+theorem C01_state_replay_delay {G : Type} (step : G → List (Input × InputStatus) → G) (g0 : G)
+    (a b : P2P × GS G) (h0 : DWInv step g0 a) (hrun : DWStar step a b) :
+    b.2.cur = b.1.sync.currentFrame ∧ b.2.g = replay step g0 b.2.R b.2.cur.toNat := by
+  have h := (DWInv_run step g0 a b h0 hrun).1
+  obtain ⟨c, hc, hg, _, _⟩ := h.chk
+  exact ⟨hg.cur.trans hc, hg.state⟩
 
 end Ggrs
